@@ -97,7 +97,7 @@ def build(case, provider, alarm_ack, comp_ack, snooze):
         if snooze is not None:
             lines.append(f"X-MOZ-SNOOZE-TIME:{R.fmt_dt(utc_list(snooze), True)}")
         if comp_ack is None and snooze is None:
-            lines.append("X-MOZ-GENERATION:1")
+            lines.append(f"{case.get('moz_marker', 'X-MOZ-GENERATION')}:1")
         lines += ["BEGIN:VALARM", "ACTION:DISPLAY"]
         if k == "utc":
             lines.append(f"TRIGGER;VALUE=DATE-TIME:{R.fmt_dt(T_WALL, True)}")
@@ -118,6 +118,25 @@ def build(case, provider, alarm_ack, comp_ack, snooze):
         A = Alarms()
         A.add_alarm(al)
         A.set_start(V.dec(start, provider))
+        prime = case.get("prime")
+        if prime:       # history on one object: the results were read (and possibly cached) before the last setter call
+            far_past, far_future = datetime(1999, 1, 1, tzinfo=UTC), datetime(2999, 1, 1, tzinfo=UTC)
+            if prime in ("snooze-last", "plain"):
+                A.acknowledge_until(comp_ack)
+                A.snooze_until(far_future if snooze is None else None)
+            else:       # "ack-last"
+                A.snooze_until(snooze)
+                A.acknowledge_until(far_past if comp_ack is None else None)
+            for attr in ("times", "active"):
+                try:
+                    getattr(A, attr)
+                except LocalTimezoneMissing:
+                    pass
+            if prime in ("snooze-last", "plain"):
+                A.snooze_until(snooze)
+            else:
+                A.acknowledge_until(comp_ack)
+            return A
         A.acknowledge_until(comp_ack)
         A.snooze_until(snooze)
         return A
@@ -134,7 +153,7 @@ def build(case, provider, alarm_ack, comp_ack, snooze):
         if snooze is not None:
             ev.X_MOZ_SNOOZE_TIME = snooze
         if comp_ack is None and snooze is None:
-            ev.add("X-MOZ-GENERATION", "1")
+            ev.add(case.get("moz_marker", "X-MOZ-GENERATION"), "1")
     return ev.alarms
 
 
@@ -142,7 +161,8 @@ def observe(case, provider, alarm_ack, comp_ack, snooze):
     """-> (active: bool | error name, reported trigger, AlarmTime.acknowledged, sublist_ok)"""
     A = build(case, provider, alarm_ack, comp_ack, snooze)
     if case.get("local_tz"):
-        A.set_local_timezone(LOCAL)
+        src = case.get("local_src", "str")      # the local zone may be given as an id or as a tzinfo object of either tz library
+        A.set_local_timezone(LOCAL if src == "str" else (__import__("pytz").timezone(LOCAL) if src == "pytz" else zoneinfo.ZoneInfo(LOCAL)))
     times = A.times
     if len(times) != 1:
         raise AssertionError(f"expected one alarm time, got {len(times)}")
@@ -326,6 +346,7 @@ def info(case):
 
 REGIONS = {}
 
+MARKERS = ["X-MOZ-GENERATION", "X-MOZ-SEND-INVITATIONS", "X-MOZ-RECEIVED-DTSTAMP", "X-MOZ-SNOOZE-TIME-1729339200000000", "X-MOZ-FAKED-MASTER"]
 ACK = [None, -1, 0, 1, 86400]
 SNZ = [None, -7200, -1, 0, 1, 7200, 86400, 86401]
 MODES = ["dtstamp", "moz", "moz-parse", "manual"]
@@ -341,8 +362,11 @@ def _rows():
                     for c in ACK:
                         for s in (SNZ if mode != "dtstamp" else [None]):
                             for local in (False, True):
+                                i = len(rows)
                                 rows.append({"provider": provider, "tkind": k, "mode": mode, "alarm_ack": a, "comp_ack": c, "snooze": s,
-                                             "local_tz": local, "decoy_dtstamp": bool((a or 0) % 2 == 0) and mode.startswith("moz")})
+                                             "local_tz": local, "decoy_dtstamp": bool((a or 0) % 2 == 0) and mode.startswith("moz"),
+                                             "local_src": ["str", "zoneinfo", "pytz"][i % 3], "prime": [None, "plain", "snooze-last", "ack-last"][(i // 3) % 4],
+                                             "moz_marker": MARKERS[(i // 5) % len(MARKERS)]})
     return rows
 
 
@@ -353,6 +377,8 @@ def _hyp():
     return st.fixed_dictionaries({
         "provider": st.sampled_from(["zoneinfo", "pytz"]), "tkind": st.sampled_from(KINDS), "mode": st.sampled_from(MODES[1:]),
         "alarm_ack": _off, "comp_ack": _off, "snooze": _off, "local_tz": st.booleans(), "decoy_dtstamp": st.booleans(),
+        "local_src": st.sampled_from(["str", "zoneinfo", "pytz"]), "prime": st.sampled_from([None, "plain", "snooze-last", "ack-last"]),
+        "moz_marker": st.sampled_from(MARKERS),
         "comp": st.sampled_from(["Event", "Todo"]), "later_by": st.integers(1, 10 ** 6)})
 
 
